@@ -294,3 +294,51 @@ func (h *history) deliveredAlive(e *verifsim.Event) bool {
 func isAllNodes(a netip.Addr) bool { return a == netip.IPv6LinkLocalAllNodes() }
 
 func ms(ns int64) string { return fmt.Sprintf("%.6fs", float64(ns)/1e9) }
+
+// unreadDeliveries applies the "nothing is left in the socket" rule per
+// connection generation: every message delivered to a connection is read,
+// unless the connection was given up (link change, failure, stop) while its
+// listener was legitimately not waiting in a receive: backing off after a
+// receive timeout, or inside a receive that had dequeued its packet and was slow
+// to return (read.post). What is queued then is lost with the socket. A listener
+// that was waiting in ReadFrom at that moment has, by construction of the
+// simulated socket, read everything delivered before.
+func (h *history) unreadDeliveries(ifn string, stopT int64, busyProbe func(), report func(g *generation, delivered int, cutT int64)) {
+	for _, g := range h.gens {
+		if g.ifn != ifn {
+			continue
+		}
+		cutT := int64(1) << 62
+		for _, t := range []int64{g.doomT, g.tEnd, stopT} {
+			if t != 0 && t < cutT {
+				cutT = t
+			}
+		}
+		delivered, busy := 0, false
+		for i := range h.ev {
+			e := &h.ev[i]
+			if e.If != ifn || e.Gen != g.gen || e.Node != g.node || e.T >= cutT {
+				continue
+			}
+			switch e.K {
+			case "act.ra", "act.rs", "act.ns", "act.na":
+				if e.Err == "" {
+					delivered++
+				}
+			case "read.enter":
+				busy = false
+			case "read.post":
+				busy = true
+			case "read.exit":
+				busy = e.Err == "timeout"
+			}
+		}
+		if busy {
+			busyProbe()
+			continue
+		}
+		if len(g.rxs) < delivered {
+			report(g, delivered, cutT)
+		}
+	}
+}
